@@ -238,6 +238,72 @@ def check_precision(ctx, rule, module_names):
     return n
 
 
+def bool_identity_sites(tree):
+    """[(lineno, text)] - `<comparison> is True|False` (directly, or through a name bound once to a comparison in the same
+    function): a comparison that involves a numpy scalar or array returns np.True_ / np.False_ / an array, none of which
+    *is* the Python singleton - the test then fails for numpy numbers and holds for Python floats"""
+    import ast
+
+    out = []
+    for fn in ast.walk(tree):
+        if not isinstance(fn, (ast.FunctionDef, ast.AsyncFunctionDef, ast.Lambda)):
+            continue
+        cmps = {}
+        body = fn.body if isinstance(fn.body, list) else [fn.body]
+        for st in body:
+            for n in ast.walk(st):
+                if isinstance(n, ast.Assign) and len(n.targets) == 1 and isinstance(n.targets[0], ast.Name):
+                    cmps.setdefault(n.targets[0].id, []).append(n.value)
+        for st in body:
+            for n in ast.walk(st):
+                if not (isinstance(n, ast.Compare) and len(n.ops) == 1 and isinstance(n.ops[0], (ast.Is, ast.IsNot))):
+                    continue
+                l, r = n.left, n.comparators[0]
+                for a, b in ((l, r), (r, l)):
+                    if isinstance(b, ast.Constant) and (b.value is True or b.value is False):
+                        e = a
+                        if isinstance(e, ast.Name) and len(cmps.get(e.id, [])) == 1:
+                            e = cmps[e.id][0]
+                        arith = isinstance(e, ast.Compare) and not all(isinstance(o, (ast.Is, ast.IsNot, ast.In, ast.NotIn)) for o in e.ops)
+                        if arith or (isinstance(e, ast.Call) and ast.unparse(e.func).split(".")[-1] in ("all", "any", "isnan", "isfinite", "isclose", "array_equal", "allclose", "bool_")):
+                            out.append((n.lineno, ast.unparse(n)[:80]))
+    return sorted(set(out))
+
+
+def check_bool_identity(ctx, rule, module_names):
+    """Shared rule D, second clause: no branch is selected by the *identity* of a comparison result with True / False."""
+    import ast
+
+    src = "\n".join([
+        "import numpy as np",
+        "def f(p, pb):",
+        "    sat = p < pb",
+        "    if sat is True:",
+        "        return 1",
+        "    if (p >= pb) is False:",
+        "        return 2",
+        "    flag = True",
+        "    if flag is True:",
+        "        return 3",
+        "    return 0",
+        "",
+    ])
+    if len(bool_identity_sites(ast.parse(src))) != 2:
+        from ..model import AnalysisError
+
+        raise AnalysisError("boolean-identity rule failed its built-in example")
+    for mn in module_names:
+        m = ctx.P.modules.get(mn)
+        if m is None:
+            continue
+        sites = bool_identity_sites(m.tree)
+        ctx.check(
+            not sites, rule, f"{mn}:comparisons are tested by value", m.relpath,
+            "no `(a < b) is True` / `is False`: with numpy numbers a comparison yields np.True_ / np.False_, which are not the Python singletons - the branch taken would depend on the numeric type of the argument",
+            signature="bool identity " + "; ".join(t for _l, t in sites)[:160], sites=[f"line {l}: {t}" for l, t in sites],
+        )
+
+
 def permutation_twice_sites(tree):
     """[(lineno, text)] - `values_in_sorted_order[order]` with `order = np.argsort(...)`: the sorting permutation applied a
     second time where its inverse was meant (`out[order] = values`, or `values[np.argsort(order)]`)"""
